@@ -36,6 +36,10 @@ func (w *World) Apply(e Event) {
 		t.Kept += 30
 		t.Total += 30
 		w.BudgetW--
+	case "outgrow":
+		t := w.T[e.H]
+		t.Kept, t.Total = 120, 120
+		w.BudgetW--
 	case "add":
 		t := w.T[e.H]
 		t.Discovered = true
@@ -284,6 +288,9 @@ func (w *World) Enabled(progressOnly bool) []Event {
 			if t.Discovered {
 				if t.Kept <= 30 {
 					evs = append(evs, Event{Kind: "grow", H: h})
+				}
+				if w.Cfg.Outgrow && t.Kept < 120 {
+					evs = append(evs, Event{Kind: "outgrow", H: h})
 				}
 				evs = append(evs, Event{Kind: "remove", H: h})
 			} else {
